@@ -83,6 +83,10 @@ Definition I_earn (s : State) : Prop :=
   /\ (forall o e, In (o, e) (own_earned s) -> 0 < e)
   /\ (forall o, get0 o (own_earned s) = msum (owned_by s o) (earned s)).
 
+(* C01/C03/C13 support (repair D11): a stored withdrawal address is never a module account *)
+Definition I_wd (s : State) : Prop :=
+  forall o w, get o (wdaddr s) = Some w -> is_blocked w = false.
+
 (* C14 *)
 Definition I_min (cfg : Params) (s : State) : Prop :=
   forall k b, In (k, b) (binds s) -> b_avail b = true ->
@@ -163,5 +167,6 @@ Record Inv (cfg : Params) (s : State) : Prop := mkInv {
   inv_sched : I_sched s;
   inv_ctx : I_ctx cfg s;
   inv_req : I_req s;
-  inv_time : I_time s
+  inv_time : I_time s;
+  inv_wd : I_wd s
 }.
